@@ -36,6 +36,11 @@ def check(tier, seed):
                 ps = PK_SRC[(j + (mode == 'pure')) % 4]
                 sign_lines.append(f"sign {s} {mode} {ss}:{xi.hex()} {hx(m)} {hx(c)} ok:{r.hex()}")
                 meta.append((s, mode, ss, ps, xi, m, c, 10 ** 6))
+    # one honest signature per Decompose bucket edge of w - c s2 + c t0 (corpus): a signer / verifier pair that round differently there disagree
+    for s in fam.SETS:
+        for j, (tag, xi, sk, pk, m) in enumerate(fam.bucket_edge_cases(s)):
+            sign_lines.append(f"sign {s} pure gen:{xi.hex()} {hx(m)} - ok:{'00' * 32}")
+            meta.append((s, 'pure', 'gen', PK_SRC[j % 4], xi, m, b'', 10 ** 6))
     souts = core.run_stream([core.RUST['fast']], sign_lines)
     cases = []
     for (s, mode, ss, ps, xi, m, c, i), line, o in zip(meta, sign_lines, souts):
